@@ -306,6 +306,15 @@ def one_scenario(run, seed, idx, mods, use_script=False):
         hkl = np.concatenate([hkl, np.zeros((njunk, 3), int)])
     n = nreal + njunk
     perm = r.permutation(n)
+    if idx % 7 == 3:
+        # a peak table as a frame-by-frame peak search writes it: rows in omega order and several rows with exactly the same
+        # omega next to each other (here: a third of the rows are written twice).  Anything that carries per-row state from
+        # the previous row (also across the chunks OpenMP gives to its threads) sees equal neighbours here.
+        rep = np.where(rng(seed, "C09", "frameorder", idx).random(n) < 0.33, 2, 1)
+        sc, fc, om, gid, hkl = (np.repeat(a, rep, axis=0) for a in (sc, fc, om, gid, hkl))
+        n = len(sc)
+        perm = np.argsort(om, kind="stable")
+        run.count("flows_in_frame_order_with_repeated_omega")
     sc, fc, om, gid, hkl = sc[perm], fc[perm], om[perm], gid[perm], hkl[perm]
     real = gid >= 0
     # stale global translation in the parameter file (must be ignored: the start grains carry their own)
